@@ -3,7 +3,9 @@
    node.transforms, and what the implementation showed: node.matrix after construction/load,
    the matrix of every transform in the edited list, node.matrix after save(), and the
    node.matrix of the document written and loaded again (all rounded to integers by the
-   worker, which rejects anything farther than 1e-4 from an integer). *)
+   worker, which rejects anything farther than 0.05 from an integer;
+   the harness bounds the magnitudes so that float32 rounding and the 1e-7 residues of cos/sin
+   at multiples of 90 degrees stay far below that). *)
 From Coq Require Import List Bool ZArith.
 From PC Require Import Base.Py Base.Mat Gen.Transforms Model.Transforms.
 Import ListNotations.
